@@ -149,6 +149,10 @@ int Cleaner::CleanDead(const BuildLog::Entries& entries) {
 }
 
 void Cleaner::DoCleanTarget(Node* target) {
+  // Mark this target as visited before descending, so that a dependency
+  // cycle in the manifest ends the recursion.
+  cleaned_.insert(target);
+
   if (Edge* e = target->in_edge()) {
     // Do not try to remove phony targets
     if (!e->is_phony()) {
@@ -169,9 +173,6 @@ void Cleaner::DoCleanTarget(Node* target) {
       }
     }
   }
-
-  // mark this target to be cleaned already
-  cleaned_.insert(target);
 }
 
 int Cleaner::CleanTarget(Node* target) {
